@@ -1,0 +1,14 @@
+//go:build verif
+// +build verif
+
+package storage
+
+// Deterministic-schedule hook for replaying verification counterexamples (build tag verif only).
+// Replay tests install verifPauseFn to delay the caller at a named point.
+var verifPauseFn func(point string)
+
+func verifPause(point string) {
+	if f := verifPauseFn; f != nil {
+		f(point)
+	}
+}
